@@ -2,6 +2,7 @@ package sim
 
 import (
 	"fmt"
+	"github.com/resonatehq/resonate/internal/app/subsystems/api"
 	"regexp"
 	"sort"
 	"strings"
@@ -32,6 +33,9 @@ type page struct {
 	tick   int64
 }
 
+// apiLayer is the request construction / cursor validation shared by the HTTP and gRPC front ends.
+var apiLayer = api.New(nil, "verif")
+
 // TestC14 — search with cursors returns exactly the matching set, once each, newest first.
 func TestC14(t *testing.T) {
 	tampered, tamperedRejected := 0, 0
@@ -59,9 +63,15 @@ func TestC14(t *testing.T) {
 		if schedules {
 			n = []int{0, 1, 3, 6, 12}[d.Uni(5, "population")]
 		}
+		// now and then a population larger than the largest page (100, also the default), so that a full-size page
+		// hands out a cursor that has to be accepted again
+		big := d.OneIn(12, "bigpopulation")
+		if big {
+			n = 101 + d.Uni(40, "bign")
+		}
 		mkPromise := func(i int) *t_api.Request {
 			id := searchIds[d.Uni(len(searchIds), "id")]
-			if !d.OneIn(4, "nosuffix") {
+			if big || !d.OneIn(4, "nosuffix") {
 				id = fmt.Sprintf("%s.%d", id, i)
 			}
 			tags := map[string]string{}
@@ -75,7 +85,7 @@ func TestC14(t *testing.T) {
 		}
 		mkSchedule := func(i int) *t_api.Request {
 			id := searchIds[d.Uni(len(searchIds), "id")]
-			if d.Bool("suffix") {
+			if big || d.Bool("suffix") {
 				id = fmt.Sprintf("%s.%d", id, i)
 			}
 			tags := map[string]string{}
@@ -145,6 +155,9 @@ func TestC14(t *testing.T) {
 		limit := []int{1, 2, 3, m / 3, m / 2, m - 1, m, m + 1, 100}[d.Uni(9, "limitshape")]
 		if d.OneIn(6, "limitany") {
 			limit = d.Int(1, 100, "limit")
+		}
+		if big && !d.OneIn(4, "bigotherlimit") {
+			limit = []int{100, 100, 99}[d.Uni(3, "biglimit")]
 		}
 		limit = min(100, max(1, limit))
 		mkReq := func(sortId *int64) *t_api.Request {
@@ -224,6 +237,11 @@ func TestC14(t *testing.T) {
 						add("R6", "cursor does not encode: %v", err)
 						break
 					}
+					if next, aerr := apiLayer.SearchSchedules("", nil, 0, tok); aerr != nil {
+						add("R6", "own cursor token (page of %d, limit %d) is refused by the API layer both front ends go through: %v", len(p.ids), limit, aerr)
+					} else if next.Id != pattern || next.Limit != limit {
+						add("R6", "the API layer turns the cursor into another query: %v", next)
+					}
 					dec, err := t_api.NewCursor[t_api.SearchSchedulesRequest](tok)
 					if err != nil || dec.Next == nil {
 						add("R6", "own cursor token rejected: %v", err)
@@ -254,6 +272,11 @@ func TestC14(t *testing.T) {
 					if err != nil {
 						add("R6", "cursor does not encode: %v", err)
 						break
+					}
+					if next, aerr := apiLayer.SearchPromises("", "", nil, 0, tok); aerr != nil {
+						add("R6", "own cursor token (page of %d, limit %d) is refused by the API layer both front ends go through: %v", len(p.ids), limit, aerr)
+					} else if next.Id != pattern || next.Limit != limit || fmt.Sprint(next.States) != fmt.Sprint(states) {
+						add("R6", "the API layer turns the cursor into another query: %v", next)
 					}
 					dec, err := t_api.NewCursor[t_api.SearchPromisesRequest](tok)
 					if err != nil || dec.Next == nil {
